@@ -120,6 +120,7 @@ contract(F, 'get_blob', props=('C18', 'C06'),
          raises={'OscTypeParseError': None},
          ensures=[('count-data-padding:index-and-length', blob_post)],
          on_raise=[('refused-only-when-short-negative-or-overrunning', blob_refused)],
-         policies={'get_int': get_int_traced},
-         note='get_int through its proved contract; the PADDING may lie beyond the end of the datagram '
+         policies={'get_int': get_int_traced}, native=False,
+         note='byte contents are abstract (no native replay: a counter-model does not say which bytes '
+              'encode the count); get_int through its proved contract; the PADDING may lie beyond the end of the datagram '
               '(python-osc leniency, accepted by the statement: "sized correctly" is about the writer)')
